@@ -411,7 +411,7 @@ class MinFlowDecompCycles(walkmodel.AbstractWalkModelDiGraph):
         if self._lowerbound_k != None:
             return self._lowerbound_k
         
-        stDiGraph = stdigraph.stDiGraph(self.G)
+        stDiGraph = stdigraph.stDiGraph(self.G, additional_starts=self.additional_starts, additional_ends=self.additional_ends)
 
         # Checking if we have been given some lowerbound to start with
         self._lowerbound_k = self.optimization_options.get("lowerbound_k", 1)
